@@ -471,7 +471,7 @@ func execute(p *Project, o Opts, env Env, plan []simrt.PlannedFault, seed uint64
 const (
 	// steps per project byte (+200): the observed worst case over corpus and generator is < 100
 	softFactor = 2000
-	hardFactor = 200000
+	hardFactor = 80000 // observed worst case over 3M executions of the thorough tier: 3.7k
 )
 
 func init() {
